@@ -6,11 +6,11 @@ from common import *
 
 ID = 'C08'
 COQ_FILES = ['Base/Mat.v', 'Base/SumQ.v', 'Base/ListX.v', 'Model/Between.v', 'Proofs/BetweenAccum.v',
-             'Proofs/BetweenReady.v', 'Proofs/BetweenQueue.v', 'Proofs/BetweenBin.v', 'Proofs/BetweenSpec.v',
+             'Proofs/BetweenReady.v', 'Proofs/BetweenQueue.v', 'Proofs/BetweenBin.v', 'Proofs/BetweenSpec.v', 'Proofs/BetweenPaths.v',
              'Properties/C08.v']
 THEOREMS = ['C08_spec_enumeration_faithful', 'C08_dist_spec_correct', 'C08_shortest_walks_simple',
             'C08_bin_sum_BC', 'C08_bin_sum_EBC', 'C08_brandes_accumulation', 'C08_brandes_accumulation_node',
-            'C08_dag_counts_exist', 'C08_queue_slots_wei', 'C08_queue_slots_bin',
+            'C08_dag_counts_exist', 'C08_queue_slots_wei', 'C08_queue_slots_bin', 'C08_search_wei_dist_partial',
             'C08_ebc_wei_pairsums_partial', 'C08_bc_wei_pairsums_partial', 'C08_ebc_bin_pairsums_partial',
             'C08_ebc_node_vector_eq_bc_wei']
 RULE = ('every labelled digraph on n<=3 nodes (n<=4 thorough, a random slice of n=4 in quick), every labelled undirected '
@@ -510,11 +510,11 @@ def run(ctx):
         for _ in range(150):
             R.graph(und((r.rand(5, 5) < 0.5).astype(int)), 'slice_graphs_n5')
     # weighted tiny graphs against the Coq specification
-    for _ in range(ctx.scale(60, 600)):
+    for _ in range(ctx.scale(100, 800)):
         n = int(r.randint(2, 5))
         R.graph(g_random(r, n, bool(r.rand() < 0.5), [1, 2, 3], float(r.choice([0.4, 0.7, 1.0]))), 'tiny_weighted', spec=True)
     # random / structured, lengths with many ties
-    for _ in range(ctx.scale(500, 6000)):
+    for _ in range(ctx.scale(1200, 8000)):
         fam, L = random_graph(ctx)
         R.graph(L, fam)
     R.correspond()
